@@ -56,6 +56,8 @@ def gen(rng, idx=None, structs=None):
             b = gp.Block({x: slots[x] for x in order}, None, self_fmt, bounds, 'b%d' % len(blocks))
             if sk == 'w8':
                 b.of_lifetime = '{L1} '
+                # an outlives relation between the two lifetimes, written inline by this block only
+                b.lt_bounds = rng.choice([{}, {'L0': 'L1'}, {'L1': 'L0'}, {'L0': 'L1'}])
             if sk == 'w6':
                 b.bounds = [bd for bd in b.bounds if bd[0] != '{T1}']
             blocks.append(b)
